@@ -41,6 +41,19 @@ class OrderTyper:
                 self.env[p] = USER
         self.problems = []
 
+    def _package_functions(self):
+        repo = self.ctx.repo
+        cache = getattr(repo, '_kv_pkg_functions', None)
+        if cache is None:
+            cache = set()
+            for path in SITE_FILES:
+                try:
+                    cache |= {q.split('.')[-1] for q, _ in repo.functions(path)}
+                except Exception:
+                    pass
+            repo._kv_pkg_functions = cache
+        return cache
+
     def comb(self, a, b, node):
         if a == NONE:
             return b
@@ -66,7 +79,15 @@ class OrderTyper:
             if e.attr == 'chemical_potentials':
                 root = U.chain(e)
                 # the solver result is alphabetical; a MobilityData record already holds converted values
-                return NONE if (root and 'mobility' in root[0].lower()) else ALPHA
+                if root and 'mobility' in root[0].lower():
+                    return NONE
+                # so does a record returned by a function of this package (whose own returns are checked by this rule)
+                if isinstance(e.value, ast.Name):
+                    binds = [a for a in ast.walk(self.f) if isinstance(a, ast.Assign) and any(isinstance(t, ast.Name) and t.id == e.value.id for t in a.targets)]
+                    pkg = self._package_functions()
+                    if binds and all(isinstance(a.value, ast.Call) and (U.call_name(a.value) or '').split('.')[-1] in pkg for a in binds):
+                        return NONE
+                return ALPHA
             if e.attr in ('T', 'real'):
                 return self.ty(e.value)
             return NONE
